@@ -71,6 +71,7 @@ def run(cx):
         vlib.write_ndjson(tin, rows)
         tout = cx.path("topo%d.out.ndjson" % procs)
         cx.run([drv, "run", "-in", tin, "-out", tout, "-j", "6"], env={"GOMAXPROCS": str(procs)}, timeout=3000)
+        ndead = 0
         for r_ in vlib.read_ndjson(tout):
             res = r_["res"]
             by_id[r_["id"]] = r_
@@ -82,6 +83,7 @@ def run(cx):
                 continue
             if res.get("k") != "ok":
                 cx.notes.append("topology %s: driver result %s" % (r_["id"], str(res)[:150]))
+                ndead += 1
                 continue
             if "rounds" in r_:
                 for k_, evs in enumerate(res.get("rounds") or []):
@@ -102,6 +104,7 @@ def run(cx):
                    ("spawnbuiltin", 18): str(list(range(0, 60, 3)))}
             if marks != exp:
                 bad_marks.append((r_["id"], marks))
+        cx.alive(ndead, len(rows), "channel topologies under GOMAXPROCS=%d" % procs)
     langlib.tlc_conform(cx, traces, spec="TraceChan", prefix="trace", strip=(), nshards=8)
     rejected = {}
     for d in sorted(x for x in os.listdir(cx.work) if x.startswith("tlc_trace_")):
